@@ -409,6 +409,7 @@ class TrI(Tr):
             if isinstance(e.func, ast.Name):
                 if n in ('bytes', 'bytearray') and len(e.args) <= 1 and not e.keywords: return 'bytes'
                 if n in ('len', 'sum') and len(e.args) == 1 and not e.keywords: return 'Z'
+        if isinstance(e, ast.Constant) and e.value is None: return 'none'
         if isinstance(e, ast.BinOp) and isinstance(e.op, ast.Mult) and self.typ(e.left) == 'bytes': return 'bytes'
         if isinstance(e, ast.UnaryOp) and isinstance(e.op, ast.USub) and self.typ(e.operand) == 'Z': return 'Z'
         if isinstance(e, ast.Subscript) and not isinstance(e.slice, ast.Slice):
@@ -423,6 +424,12 @@ class TrI(Tr):
             txt = a[1].format(*self.holes(a, env))
             if kind == 'a': return txt
             return self.hoist(e, txt, a[4])
+        if isinstance(e, ast.Constant) and e.value is None: return 'None'
+        if isinstance(e, ast.Compare) and len(e.ops) == 1 and isinstance(e.ops[0], (ast.Is, ast.IsNot)) \
+                and isinstance(e.comparators[0], ast.Constant) and e.comparators[0].value is None and self.typ(e.left) == 'optbytes':
+            # x is None / x is not None for an attribute holding None or octets (option bytes)
+            a, b = ('true', 'false') if isinstance(e.ops[0], ast.Is) else ('false', 'true')
+            return '(match %s with None => %s | Some _ => %s end)' % (self.expr(e.left), a, b)
         if isinstance(e, ast.Call) and isinstance(e.func, ast.Name) and not e.keywords:
             n = e.func.id
             if n in ('bytes', 'bytearray'):
@@ -431,6 +438,7 @@ class TrI(Tr):
                     a = e.args[0]
                     if isinstance(a, ast.List): return self.octet_list(a)
                     if self.typ(a) == 'bytes': return self.expr(a)          # conversion between bytes / bytearray: identity
+                    if self.typ(a) == 'optbytes': return self.hoist(e, self.expr(a), 'TypeError')    # bytearray(None) raises TypeError
                     raise Unsupported('%s(%s)' % (n, self.typ(a)))
             if n == 'len' and len(e.args) == 1:
                 if self.typ(e.args[0]) != 'bytes': raise Unsupported('len of non-bytes')
@@ -580,8 +588,9 @@ class TrI(Tr):
             for n in ast.walk(s):
                 t = None
                 if isinstance(n, ast.stmt) and self.effects and ast.unparse(n) in self.effects:
-                    t = self.effects[ast.unparse(n)][0]
-                    if t not in out: out.append(t)
+                    ups = self.effects[ast.unparse(n)]
+                    for u in ([ups] if isinstance(ups, tuple) else ups):
+                        if u[0] not in out: out.append(u[0])
                     continue
                 if isinstance(n, ast.Assign) and len(n.targets) == 1 and isinstance(n.targets[0], ast.Name): t = n.targets[0].id
                 elif isinstance(n, ast.Assign) and len(n.targets) == 1 and ast.unparse(n.targets[0]) in self.fields: t = ast.unparse(n.targets[0])
@@ -614,10 +623,21 @@ class TrI(Tr):
             return self.block(rest, k)
         if src in self.effects:
             # a pinned statement whose effect is declared: state variable := term
-            var, val, t = self.effects[src]
-            if var not in self.names or self.names[var][1] != t: raise Unsupported('effect on undeclared state ' + var)
+            ups = self.effects[src]
+            if isinstance(ups, tuple): ups = [ups]
             self.effects_seen.setdefault(src, set()).add(id(s))
-            return self.bind(var, t, val, rest, k)
+            for var, val, t in ups:
+                if var not in self.names or self.names[var][1] != t: raise Unsupported('effect on undeclared state ' + var)
+            if len(ups) == 1:
+                var, val, t = ups[0]
+                return self.bind(var, t, val, rest, k)
+            # several state variables change at once: all new values are computed in the old state, then bound
+            body = self.block(rest, k)
+            for i, (var, val, t) in reversed(list(enumerate(ups))):
+                body = '(let %s := e%d_ in\n %s)' % (self.names[var][0], i, body)
+            for i, (var, val, t) in reversed(list(enumerate(ups))):
+                body = '(let e%d_ := %s in\n %s)' % (i, val, body)
+            return body
         if isinstance(s, ast.Expr) and isinstance(s.value, ast.Constant) and isinstance(s.value.value, str):
             return self.block(rest, k)
         if isinstance(s, ast.Pass):
@@ -654,6 +674,8 @@ class TrI(Tr):
                     v = self.hoist(s, fmt.format(v), exc)
                 return t, v
             (t, v), pend = self.simple(f)
+            if ft == 'optbytes' and t == 'bytes': t, v = ft, '(Some %s)' % v       # an attribute holding None or octets
+            if ft == 'optbytes' and t == 'none': t, v = ft, '(@None bytes)'
             if t != ft: raise Unsupported('field %s: %s vs %s' % (fk, t, ft))
             saved = self.names.get(fk)
             self.names[fk] = (cn, ft)
@@ -1881,6 +1903,95 @@ def gen_keyring():
     write('Gen_keyring.v', '\n'.join(out))
 
 
+# ---------- targets: pgpy/packet/fields.py SubPackets ----------
+def gen_subarea():
+    tree = parse('pgpy/packet/fields.py')
+    out = [HDR2 % ('pgpy/packet/fields.py (class SubPackets)', '')]
+    sp = find_class(tree, 'SubPackets')
+    RAW = {'self._hashed_raw': ('hraw', 'optbytes'), 'self._unhashed_raw': ('uraw', 'optbytes')}
+
+    def t_emit():
+        res = ['Section SubArea.\n'
+               '(* SP = a parsed subpacket object; sp_len = len(sp), sp_bytes = sp.__bytearray__().  hraw / uraw = self._hashed_raw /\n'
+               '   self._unhashed_raw (None or the received octets), hsps / usps = self._hashed_sp.values() / self._unhashed_sp.values() *)\n'
+               'Variable SP : Type.\nVariable sp_len : SP -> Z.\nVariable sp_bytes : SP -> bytes.\n']
+        for meth, raw, cn, dct, lv, gname in (('__hashbytearray__', '_hashed_raw', 'hraw', '_hashed_sp', 'hsp', 'gen_sub_hashed_emit'),
+                                              ('__unhashbytearray__', '_unhashed_raw', 'uraw', '_unhashed_sp', 'uhsp', 'gen_sub_unhashed_emit')):
+            fn = find_method(sp, meth)
+            if [a.arg for a in fn.args.args] != ['self']: raise Unsupported(meth + ': signature changed')
+            tr = TrI(names={'self.' + raw: (cn, 'optbytes')}, calls=I2B, raises=True, opaque=['SP'],
+                     lists={'self.%s.values()' % dct: ('sps', 'SP')},
+                     atoms=[('sum((len(sp) for sp in self.%s.values()))' % dct, '(fold_right Z.add 0 (map sp_len sps))', 'Z', []),
+                            ('%s.__bytearray__()' % lv, '(sp_bytes %s)' % lv, 'bytes', [])])
+            res.append('(* SubPackets.%s *)\nDefinition %s (%s : option bytes) (sps : list SP) : gres bytes :=\n %s.\n'
+                       % (meth, gname, cn, tr.block(strip_doc(fn.body))))
+        fn = find_method(sp, '__bytearray__')
+        tr = TrI(raises=True, ratoms=[('self.__hashbytearray__()', '(gen_sub_hashed_emit hraw hsps)', 'bytes', [], None),
+                                      ('self.__unhashbytearray__()', '(gen_sub_unhashed_emit uraw usps)', 'bytes', [], None)])
+        res.append('(* SubPackets.__bytearray__ *)\nDefinition gen_sub_emit (hraw uraw : option bytes) (hsps usps : list SP) : gres bytes :=\n %s.\n'
+                   % tr.block(strip_doc(fn.body)))
+        res.append('End SubArea.\n')
+        return '\n'.join(res)
+    guarded(out, 'SubPackets.__hashbytearray__/__unhashbytearray__/__bytearray__', t_emit)
+
+    def t_setitem():
+        fn = find_method(sp, '__setitem__')
+        if [a.arg for a in fn.args.args] != ['self', 'key', 'val']: raise Unsupported('__setitem__: signature changed')
+        tr = TrI(names=dict(RAW), fields=dict(RAW),
+                 atoms=[("key.startswith('h_')", 'is_h', 'bool', []), ('self._unhashed_sp', 'false', 'bool', [])],
+                 skip=['if isinstance(key, tuple):\n    key, i = key', 'while (key, i) in d:\n    i += 1', 'd[key, i] = val'],
+                 effects={'d, key = (self._hashed_sp, key[2:])': ('d', 'true', 'bool')})
+        txt = tr.block(strip_doc(fn.body) + [ret_stmt('(d, self._hashed_raw, self._unhashed_raw)')])
+        tr.finish()
+        return ('(* SubPackets.__setitem__: is_h = key.startswith(\'h_\').  The dictionary d that receives the value is represented by the\n'
+                '   boolean "d is self._hashed_sp" (d = self._unhashed_sp -> false;  d, key = self._hashed_sp, key[2:] -> true, pinned);\n'
+                '   the (key, i) sequence-id search and the insertion d[(key, i)] = val are pinned text.  Result: which dictionary got the\n'
+                '   value, self._hashed_raw and self._unhashed_raw afterwards *)\n'
+                'Definition gen_sub_setitem (is_h : bool) (hraw uraw : option bytes) : bool * option bytes * option bytes :=\n %s.\n' % txt)
+    guarded(out, 'SubPackets.__setitem__', t_setitem)
+
+    def t_copy():
+        fn = find_method(sp, '__copy__')
+        body = strip_doc(fn.body)
+        if not body or ast.unparse(body[-1]) != 'return sp': raise Unsupported('__copy__: does not end with `return sp`')
+        F = {'sp._hashed_sp': ('c_hsps', 'SPD'), 'sp._unhashed_sp': ('c_usps', 'SPD'),
+             'sp._hashed_raw': ('c_hraw', 'optbytes'), 'sp._unhashed_raw': ('c_uraw', 'optbytes')}
+        tr = TrI(names=dict(RAW), fields=F, opaque=['SPD'], skip=['sp = SubPackets()'],
+                 atoms=[('self._hashed_sp.copy()', 'hsps', 'SPD', []), ('self._unhashed_sp.copy()', 'usps', 'SPD', []),
+                        ('copy.copy(_1)', '{0}', 'optbytes', ['optbytes'])])
+        txt = tr.block(body[:-1] + [ret_stmt('(sp._hashed_sp, sp._unhashed_sp, sp._hashed_raw, sp._unhashed_raw)')])
+        tr.finish()
+        return ('(* SubPackets.__copy__: the four attributes of the new object (SPD = an ordered dictionary of subpackets; .copy() and\n'
+                '   copy.copy of None / octets give equal values) *)\n'
+                'Definition gen_sub_copy (SPD : Type) (hsps usps : SPD) (hraw uraw : option bytes) : SPD * SPD * option bytes * option bytes :=\n %s.\n' % txt)
+    guarded(out, 'SubPackets.__copy__', t_copy)
+
+    def t_parse():
+        fn = find_method(sp, 'parse')
+        if [a.arg for a in fn.args.args] != ['self', 'packet']: raise Unsupported('parse: signature changed')
+        loop_h = "while plen - len(packet) < hl:\n    sp = SignatureSP(packet)\n    self['h_' + sp.__class__.__name__] = sp"
+        loop_u = "while plen - len(packet) < uhl:\n    sp = SignatureSP(packet)\n    self[sp.__class__.__name__] = sp"
+        names = dict(RAW); names['packet'] = ('packet', 'bytes')
+        tr = TrI(names=names, fields=dict(RAW), calls=I2B, raises=True,
+                 effects={loop_h: [('packet', '(walk packet hl)', 'bytes'),
+                                   ('self._hashed_raw', '(if Z.ltb 0 hl then None else hraw)', 'optbytes')],
+                          loop_u: [('packet', '(walk packet uhl)', 'bytes'),
+                                   ('self._unhashed_raw', '(if Z.ltb 0 uhl then None else uraw)', 'optbytes')]})
+        txt = tr.block(strip_doc(fn.body) + [ret_stmt('(self._hashed_raw, self._unhashed_raw, packet)')])
+        tr.finish()
+        return ('(* SubPackets.parse.  The two `while` loops (SignatureSP(packet) eats one subpacket from the buffer, self[...] = sp stores it)\n'
+                '   are pinned text with the declared effect: the buffer becomes  walk packet n  (what is left when at least n octets are\n'
+                '   consumed; an exception raised inside the loop is outside the translation) and, when the loop body runs at all (0 < n),\n'
+                '   __setitem__ drops the received octets of that area.  Everything else is translated: the two counts, the two slices\n'
+                '   that are kept, the two overrun guards, the order of the assignments.  Result: self._hashed_raw, self._unhashed_raw,\n'
+                '   the rest of the buffer *)\n'
+                'Definition gen_sub_parse (walk : bytes -> Z -> bytes) (hraw uraw : option bytes) (packet : bytes)\n'
+                '  : gres (option bytes * option bytes * bytes) :=\n %s.\n' % txt)
+    guarded(out, 'SubPackets.parse', t_parse)
+
+    write('Gen_subarea.v', '\n'.join(out))
+
+
 def write(name, txt):
     os.makedirs(OUT, exist_ok=True)
     p = os.path.join(OUT, name)
@@ -1892,7 +2003,7 @@ def write(name, txt):
 
 GENS = [('gen_types', 'Gen_types.v'), ('gen_ptypes', 'Gen_ptypes.v'), ('gen_consts', 'Gen_consts.v'),
         ('gen_base', 'Gen_base.v'), ('gen_pgp', 'Gen_pgp.v'), ('gen_tables', 'Gen_tables.v'),
-        ('gen_packets', 'Gen_packets.v'), ('gen_fields', 'Gen_fields.v'), ('gen_cleartext', 'Gen_cleartext.v'), ('gen_policy', 'Gen_policy.v'), ('gen_keyring', 'Gen_keyring.v')]
+        ('gen_packets', 'Gen_packets.v'), ('gen_fields', 'Gen_fields.v'), ('gen_cleartext', 'Gen_cleartext.v'), ('gen_policy', 'Gen_policy.v'), ('gen_keyring', 'Gen_keyring.v'), ('gen_subarea', 'Gen_subarea.v')]
 
 
 def main():
